@@ -196,7 +196,7 @@ class C05(vlib.PropertyCheck):
     def extra_steps(self, ctx):
         """address-ordered comparisons: the same cases in the build whose allocator is monotone"""
         out = []
-        cases = [c for c in getattr(self, '_cases', []) if ' comp ' in c]
+        cases = [c for c in ownlib.corpus_cases(self.id) + getattr(self, '_cases', []) if ' comp ' in c]
         if not cases or not ctx['model_exe']:
             return out
         exe, log = ownlib.build_bump('c05-%s-bump' % ctx['tier'])
